@@ -13,8 +13,9 @@
    termination.                                                                               *)
 EXTENDS VIO, FiniteSets
 CONSTANTS MaxScript, Flaky
-VARIABLES file, script, md5s, pc, reqs, status, prior, script0, md5s0
-vars == <<file, script, md5s, pc, reqs, status, prior, script0, md5s0>>
+VARIABLES file, script, md5s, pc, reqs, status, prior, script0, md5s0,
+          cbLeak      \* growth beyond C20: callbacks left on phylib's GLOBAL event emitter (see CallbacksRestored)
+vars == <<file, script, md5s, pc, reqs, status, prior, script0, md5s0, cbLeak>>
 
 Resp == {"good", "corrupt", "e404"}
 Md5Modes == {"correct", "wrong", "missing"}
@@ -24,7 +25,7 @@ Seqs(S, len) == IF len = 0 THEN {<<>>} ELSE {<<x>> \o r : x \in S, r \in Seqs(S,
 Init == /\ file \in {"absent", "valid", "corrupt"} /\ prior = file
         /\ script \in UNION {Seqs(Resp, l) : l \in 0..MaxScript} /\ script0 = script
         /\ md5s \in (IF Flaky THEN Seqs(Md5Modes, 3) ELSE {<<m, m, m>> : m \in Md5Modes}) /\ md5s0 = md5s
-        /\ pc = "start" /\ reqs = <<>> /\ status = "running"
+        /\ pc = "start" /\ reqs = <<>> /\ status = "running" /\ cbLeak = 0
 
 \* _check_md5_of_url: tri-state. A 404 on the checksum URL yields an (HTML-free) empty body here,
 \* i.e. no checksum -> "none".
@@ -35,20 +36,23 @@ Check(f, m) == IF m = "missing" THEN "none"
 Fetch(next) ==
   /\ reqs' = Append(reqs, "data")
   /\ IF script = <<>> \/ Head(script) = "e404"
-     THEN /\ status' = "raised" /\ pc' = "end" /\ file' = file
+     THEN /\ status' = "raised" /\ pc' = "end" /\ file' = file /\ cbLeak' = cbLeak
           /\ script' = (IF script = <<>> THEN script ELSE Tail(script))
      ELSE /\ file' = (IF Head(script) = "good" THEN "valid" ELSE "corrupt")
           /\ script' = Tail(script) /\ pc' = next /\ status' = status
+          \* _save_stream creates a ProgressReporter whose set_progress_message / set_complete_message
+          \* connect two callbacks on the module-level emitter; nothing ever unconnects them
+          /\ cbLeak' = cbLeak + 2
   /\ UNCHANGED <<md5s, prior, script0, md5s0>>
 
 \* one checksum request, then `then(result)`
 Verify(then(_)) == /\ reqs' = Append(reqs, "md5") /\ md5s' = Tail(md5s)
                    /\ then(Check(file, Head(md5s)))
-                   /\ UNCHANGED <<file, script, prior, script0, md5s0>>
+                   /\ UNCHANGED <<file, script, prior, script0, md5s0, cbLeak>>
 
 PreCheck == /\ pc = "start"
             /\ IF file = "absent"
-               THEN pc' = "fetch1" /\ UNCHANGED <<file, script, md5s, reqs, status, prior, script0, md5s0>>
+               THEN pc' = "fetch1" /\ UNCHANGED <<file, script, md5s, reqs, status, prior, script0, md5s0, cbLeak>>
                ELSE Verify(LAMBDA c : IF c = "true" THEN pc' = "end" /\ status' = "returned"
                                       ELSE pc' = "fetch1" /\ status' = status)
 Fetch1 == pc = "fetch1" /\ Fetch("verify1")
@@ -81,9 +85,13 @@ FaultsRaiseOf(m, f, st, hadErr) ==
 HadHttpError == \E k \in 1..NGets(reqs) : k > Len(script0) \/ script0[k] = "e404"
 FaultsRaise == (Stable /\ pc = "end") => FaultsRaiseOf(Mode, file, status, HadHttpError)
 Terminates == <>(pc = "end")
+\* NOT a listed property and NOT claimed: "a download leaves the set of registered callbacks as it found
+\* it". TLC refutes it (MC_Download_leak.cfg: every transfer that receives a body leaves two callbacks);
+\* the replay records the observed growth of the emitter's callback list next to cbLeak (evidence note).
+CallbacksRestored == pc = "end" => cbLeak = 0
 
 \* ---------------------------------------------------------------------------- G
 CaseRecord == [prior |-> prior, script |-> script0, md5s |-> md5s0, reqs |-> reqs,
-               status |-> status, file |-> file]
+               status |-> status, file |-> file, cbLeak |-> cbLeak]
 EmitCase == pc = "end" => Emit(CaseRecord)
 ====
